@@ -171,3 +171,8 @@ func certOddities(at time.Time) []certOddity {
 		{"key-usage-none", func(s *world.CertSpec) { s.KeyUsage = 0 }},
 	}
 }
+
+// wallNow is "now" for the worlds that live at the wall clock (verification with Options.Now unset, the
+// check tool): read once per process, so that a run and its re-execution in the same process build the
+// very same world even if an hour boundary passes in between.
+var wallNow = time.Now().UTC().Truncate(time.Hour)
